@@ -665,7 +665,7 @@ func (d *cborDecDriver[T]) decTagBigIntAsFloat(neg bool) (f float64) {
 }
 
 func (d *cborDecDriver[T]) decTagBigFloatAsFloat(decimal bool) (f float64) {
-	if nn := d.r.readn1(); nn != 82 {
+	if nn := d.r.readn1(); nn != 0x82 { // array of 2 (RFC 8949 3.4.4); was decimal 82 = 0x52
 		halt.errorf("(%d) decoding decimal/big.Float: expected 2 numbers", nn)
 	}
 	exp := d.DecodeInt64()
